@@ -70,7 +70,7 @@ type lambdaCase struct {
 }
 
 func runLambda(t *testing.T, sh lambdaShape, id, tag string) *lambdaCase {
-	cl := ckit.NewCluster(t, ckit.Options{})
+	cl := newCluster(t, ckit.Options{})
 	defer cl.Close()
 	cl.Wipe()
 	hub := newScriptHub(cl)
@@ -403,7 +403,9 @@ func genLambda(t *testing.T, out *hx.Out, budget int) {
 		if i >= budget {
 			break
 		}
-		out.Emit(runLambda(t, sh, fmt.Sprintf("lambda-%d", i), fmt.Sprintf("l%d", i)))
+		i, sh := i, sh
+		try := 0
+		emitGuarded(t, out, func() any { try++; return runLambda(t, sh, fmt.Sprintf("lambda-%d", i), fmt.Sprintf("l%dt%d", i, try)) })
 	}
 }
 
